@@ -793,21 +793,33 @@ func init() {
 // the function has related the two degrees (a Resize of X to Y's degree, a test of both degrees, X built with Y's
 // degree), a receiver of higher degree than the operand makes the loop run past the end of Y.Value (a panic) and a
 // receiver of lower degree silently drops components.
+type riSite struct {
+	pk   *packages.Package
+	fd   *ast.FuncDecl
+	rs   *ast.RangeStmt
+	X, Y string
+	ypos token.Pos
+	api  bool
+}
+
+// limitNode stands for the position before which evidence must be found.
+type limitNode struct{ p token.Pos }
+
+func (l limitNode) Pos() token.Pos { return l.p }
+
 func scanRangeIdx(c *core.Ctx) []ob {
 	var out []ob
 	n := 0
+	var sites []riSite
 	c.FuncDecls(func(pk *packages.Package, file *ast.File, fd *ast.FuncDecl) {
 		rel := core.ShortPkg(pk.PkgPath)
 		if fd.Body == nil || fileIsTestSupport(c.Program, fd.Pos()) || !(c.IsFixture || strings.HasPrefix(rel, "schemes/") || strings.HasPrefix(rel, "core/") || strings.HasPrefix(rel, "circuits/") || strings.HasPrefix(rel, "multiparty")) {
 			return
 		}
-		// the API boundary: exported methods of evaluator-like types (helpers rely on what their callers established,
-		// package-level utilities on Elements document that the receiver dictates the shape)
-		if !c.IsFixture && (fd.Recv == nil || !fd.Name.IsExported() || !immutRecv.MatchString(core.RecvTypeName(fd))) {
-			return
-		}
+		// the API boundary: exported methods of evaluator-like types (package-level utilities on Elements document that
+		// the receiver dictates the shape; helpers are judged at their calls from the API methods, below)
+		api := c.IsFixture && !strings.HasPrefix(fd.Name.Name, "rangeIdxHelper") || (fd.Recv != nil && fd.Name.IsExported() && immutRecv.MatchString(core.RecvTypeName(fd)))
 		info := pk.TypesInfo
-		fkey := core.FuncKey(pk, fd)
 		ast.Inspect(fd.Body, func(x ast.Node) bool {
 			rs, ok := x.(*ast.RangeStmt)
 			if !ok || rs.Key == nil {
@@ -845,195 +857,268 @@ func scanRangeIdx(c *core.Ctx) []ob {
 				return true
 			})
 			for _, Y := range sortedKeys(others) {
-				n++
-				key := fmt.Sprintf("RANGEIDX:%s#range(%s.Value)->%s.Value", fkey, X, Y)
-				// evidence that the two degrees were related before the loop
-				related := ""
-				mentionsDeg := func(e ast.Node, who string) bool {
-					found := false
-					ast.Inspect(e, func(z ast.Node) bool {
-						switch v := z.(type) {
-						case *ast.CallExpr:
-							if s, ok := unparen(v.Fun).(*ast.SelectorExpr); ok && s.Sel.Name == "Degree" && exprString(s.X) == who {
-								found = true
-							}
-							if isBuiltinCall(info, v, "len") && len(v.Args) == 1 && exprString(v.Args[0]) == who+".Value" {
-								found = true
-							}
-						}
-						return !found
-					})
-					return found
-				}
-				ast.Inspect(fd.Body, func(z ast.Node) bool {
-					if related != "" || z == nil || z.Pos() >= rs.Pos() {
-						return related == ""
-					}
-					switch v := z.(type) {
-					case *ast.CallExpr:
-						if s, ok := unparen(v.Fun).(*ast.SelectorExpr); ok && s.Sel.Name == "Resize" && len(v.Args) >= 1 {
-							base := exprString(s.X)
-							base = strings.TrimSuffix(base, ".El()")
-							if (base == X && mentionsDeg(v.Args[0], Y)) || (base == Y && mentionsDeg(v.Args[0], X)) {
-								related = "Resize at " + c.Rel(v.Pos())
-							}
-							// Resize to a degree variable computed from both (InitOutput*, Max/Min of degrees)
-							if base == X || base == Y {
-								if id, ok := unparen(v.Args[0]).(*ast.Ident); ok && strings.Contains(strings.ToLower(id.Name), "degree") {
-									related = "Resize to the computed degree at " + c.Rel(v.Pos())
-								}
-							}
-						}
-						if strings.HasPrefix(calleeName(info, v), "InitOutput") {
-							txt := exprString(v)
-							if strings.Contains(txt, X) && strings.Contains(txt, Y) {
-								related = "InitOutput at " + c.Rel(v.Pos())
-							}
-						}
-					case *ast.IfStmt:
-						if mentionsDeg(v.Cond, X) && mentionsDeg(v.Cond, Y) {
-							related = "degree test at " + c.Rel(v.Pos())
-						}
-					case *ast.AssignStmt:
-						// X built with Y's degree (or conversely)
-						for i, l := range v.Lhs {
-							if i < len(v.Rhs) && (exprString(l) == X && mentionsDeg(v.Rhs[i], Y) || exprString(l) == Y && mentionsDeg(v.Rhs[i], X)) {
-								related = "constructed with the other's degree at " + c.Rel(v.Pos())
-							}
-						}
-					}
-					return related == ""
-				})
-				if related == "" {
-					// both pinned to one constant degree before the loop: `Y.Degree() != k -> error` (in the function or in a
-					// predicate of the package that receives Y) and `X.Resize(k, …)`
-					pinned := map[string]string{}
-					built := map[string]bool{} // allocated by the function itself with a constant degree
-					var pin func(body *ast.BlockStmt, sub map[string]string, limit token.Pos, depth int)
-					pin = func(body *ast.BlockStmt, sub map[string]string, limit token.Pos, depth int) {
-						name := func(e ast.Expr) string {
-							t := exprString(e)
-							if r, ok := sub[t]; ok {
-								return r
-							}
-							return t
-						}
-						ast.Inspect(body, func(z ast.Node) bool {
-							if z == nil || (limit != token.NoPos && z.Pos() >= limit) {
-								return true
-							}
-							switch v := z.(type) {
-							case *ast.AssignStmt:
-								// allocated with a literal degree: `ctTmp := NewCiphertext(params, 1, level)`
-								if len(v.Lhs) >= 1 && len(v.Rhs) == 1 {
-									if call, ok := unparen(v.Rhs[0]).(*ast.CallExpr); ok && len(call.Args) >= 2 {
-										if nm := calleeName(info, call); nm == "NewCiphertext" || nm == "NewPlaintext" || nm == "NewElement" {
-											if lit, ok := unparen(call.Args[1]).(*ast.BasicLit); ok && lit.Kind == token.INT {
-												pinned[name(v.Lhs[0])] = lit.Value
-												built[name(v.Lhs[0])] = true
-											}
-										}
-									}
-								}
-								// built from a literal list of k polynomials: degree k-1
-								if len(v.Lhs) >= 1 && len(v.Rhs) == 1 {
-									ast.Inspect(v.Rhs[0], func(w ast.Node) bool {
-										if cl, ok := w.(*ast.CompositeLit); ok {
-											if sl, ok := info.TypeOf(cl).Underlying().(*types.Slice); ok && polyish(sl.Elem()) && len(cl.Elts) > 0 {
-												pinned[name(v.Lhs[0])] = fmt.Sprint(len(cl.Elts) - 1)
-												return false
-											}
-										}
-										return true
-									})
-								}
-							case *ast.IfStmt:
-								// `A.Degree() != k || B.Degree() != k' -> error`: every disjunct that leaves pins its operand
-								var disj func(e ast.Expr)
-								disj = func(e ast.Expr) {
-									be, ok := unparen(e).(*ast.BinaryExpr)
-									if !ok {
-										return
-									}
-									if be.Op == token.LOR {
-										disj(be.X)
-										disj(be.Y)
-										return
-									}
-									if be.Op != token.NEQ {
-										return
-									}
-									if call, ok := unparen(be.X).(*ast.CallExpr); ok {
-										if s, ok := unparen(call.Fun).(*ast.SelectorExpr); ok && s.Sel.Name == "Degree" {
-											if lit, ok := unparen(be.Y).(*ast.BasicLit); ok {
-												pinned[name(s.X)] = lit.Value
-											}
-										}
-									}
-								}
-								if leavesWithError(v.Body) {
-									disj(v.Cond)
-								}
-							case *ast.CallExpr:
-								if s, ok := unparen(v.Fun).(*ast.SelectorExpr); ok && s.Sel.Name == "Resize" && len(v.Args) >= 1 {
-									if lit, ok := unparen(v.Args[0]).(*ast.BasicLit); ok {
-										pinned[strings.TrimSuffix(name(s.X), ".El()")] = lit.Value
-									}
-									// resized to the degree of an element whose degree is pinned
-									if dc, ok := unparen(v.Args[0]).(*ast.CallExpr); ok {
-										if ds, ok := unparen(dc.Fun).(*ast.SelectorExpr); ok && ds.Sel.Name == "Degree" {
-											if k, ok := pinned[name(ds.X)]; ok {
-												pinned[strings.TrimSuffix(name(s.X), ".El()")] = k
-											}
-										}
-									}
-								}
-								if depth < 1 {
-									if hf := calleeFunc(info, v); hf != nil && hf.Pkg() == pk.Types {
-										for _, f2 := range pk.Syntax {
-											for _, d2 := range f2.Decls {
-												hd, ok := d2.(*ast.FuncDecl)
-												if !ok || hd.Body == nil || info.Defs[hd.Name] != types.Object(funcOrigin(hf)) || hd == fd {
-													continue
-												}
-												hs := map[string]string{}
-												ai := 0
-												for _, fl := range hd.Type.Params.List {
-													for _, nm := range fl.Names {
-														if ai < len(v.Args) {
-															hs[nm.Name] = exprString(v.Args[ai])
-														}
-														ai++
-													}
-												}
-												pin(hd.Body, hs, token.NoPos, depth+1)
-											}
-										}
-									}
-								}
-							}
-							return true
-						})
-					}
-					pin(fd.Body, nil, rs.Pos(), 0)
-					if kx, ok := pinned[X]; ok && pinned[Y] == kx {
-						related = "both pinned to degree " + kx + " before the loop"
-					} else if ok && built[X] {
-						// a scratch element the function allocated itself with a constant degree k: the loop is the written-out
-						// accesses Y.Value[0..k], which RESIZEFIRST and INDEG judge like any constant index
-						related = "the ranged element is a scratch of constant degree " + kx + " allocated by the function"
-					}
-				}
-				props := metaProps(fkey)
-				if related != "" {
-					out = append(out, withProps(okOb("RANGEIDX", key, c.Rel(rs.Pos()), related, true), props...))
-				} else {
-					out = append(out, withProps(violOb("RANGEIDX", key, c.Rel(others[Y]), fmt.Sprintf("%s indexes %s.Value with the component index of %s.Value at %s without having related their degrees: a %s of higher degree than %s runs past the end of %s.Value (panic), one of lower degree drops components", fkey, Y, X, c.Rel(others[Y]), X, Y, Y)), props...))
-				}
+				sites = append(sites, riSite{pk, fd, rs, X, Y, others[Y], api})
 			}
 			return true
 		})
 	})
+	// judge: is something relating the degrees of X and Y found in fd before limit?
+	judge := func(pk *packages.Package, fd *ast.FuncDecl, limit token.Pos, X, Y string) string {
+		info := pk.TypesInfo
+		rs := limitNode{limit}
+				// evidence that the two degrees were related before the loop
+		related := ""
+		mentionsDeg := func(e ast.Node, who string) bool {
+			found := false
+			ast.Inspect(e, func(z ast.Node) bool {
+				switch v := z.(type) {
+				case *ast.CallExpr:
+					if s, ok := unparen(v.Fun).(*ast.SelectorExpr); ok && s.Sel.Name == "Degree" && exprString(s.X) == who {
+						found = true
+					}
+					if isBuiltinCall(info, v, "len") && len(v.Args) == 1 && exprString(v.Args[0]) == who+".Value" {
+						found = true
+					}
+				}
+				return !found
+			})
+			return found
+		}
+		ast.Inspect(fd.Body, func(z ast.Node) bool {
+			if related != "" || z == nil || z.Pos() >= rs.Pos() {
+				return related == ""
+			}
+			switch v := z.(type) {
+			case *ast.CallExpr:
+				if s, ok := unparen(v.Fun).(*ast.SelectorExpr); ok && s.Sel.Name == "Resize" && len(v.Args) >= 1 {
+					base := exprString(s.X)
+					base = strings.TrimSuffix(base, ".El()")
+					if (base == X && mentionsDeg(v.Args[0], Y)) || (base == Y && mentionsDeg(v.Args[0], X)) {
+						related = "Resize at " + c.Rel(v.Pos())
+					}
+					// Resize to a degree variable computed from both (InitOutput*, Max/Min of degrees)
+					if base == X || base == Y {
+						if id, ok := unparen(v.Args[0]).(*ast.Ident); ok && strings.Contains(strings.ToLower(id.Name), "degree") {
+							related = "Resize to the computed degree at " + c.Rel(v.Pos())
+						}
+					}
+				}
+				if strings.HasPrefix(calleeName(info, v), "InitOutput") {
+					txt := exprString(v)
+					if strings.Contains(txt, X) && strings.Contains(txt, Y) {
+						related = "InitOutput at " + c.Rel(v.Pos())
+					}
+				}
+			case *ast.IfStmt:
+				if mentionsDeg(v.Cond, X) && mentionsDeg(v.Cond, Y) {
+					related = "degree test at " + c.Rel(v.Pos())
+				}
+			case *ast.AssignStmt:
+				// X built with Y's degree (or conversely)
+				for i, l := range v.Lhs {
+					if i < len(v.Rhs) && (exprString(l) == X && mentionsDeg(v.Rhs[i], Y) || exprString(l) == Y && mentionsDeg(v.Rhs[i], X)) {
+						related = "constructed with the other's degree at " + c.Rel(v.Pos())
+					}
+				}
+			}
+			return related == ""
+		})
+		if related == "" {
+			// both pinned to one constant degree before the loop: `Y.Degree() != k -> error` (in the function or in a
+			// predicate of the package that receives Y) and `X.Resize(k, …)`
+			pinned := map[string]string{}
+			built := map[string]bool{} // allocated by the function itself with a constant degree
+			var pin func(body *ast.BlockStmt, sub map[string]string, limit token.Pos, depth int)
+			pin = func(body *ast.BlockStmt, sub map[string]string, limit token.Pos, depth int) {
+				name := func(e ast.Expr) string {
+					t := exprString(e)
+					if r, ok := sub[t]; ok {
+						return r
+					}
+					return t
+				}
+				ast.Inspect(body, func(z ast.Node) bool {
+					if z == nil || (limit != token.NoPos && z.Pos() >= limit) {
+						return true
+					}
+					switch v := z.(type) {
+					case *ast.AssignStmt:
+						// allocated with a literal degree: `ctTmp := NewCiphertext(params, 1, level)`
+						if len(v.Lhs) >= 1 && len(v.Rhs) == 1 {
+							if call, ok := unparen(v.Rhs[0]).(*ast.CallExpr); ok && len(call.Args) >= 2 {
+								if nm := calleeName(info, call); nm == "NewCiphertext" || nm == "NewPlaintext" || nm == "NewElement" {
+									if lit, ok := unparen(call.Args[1]).(*ast.BasicLit); ok && lit.Kind == token.INT {
+										pinned[name(v.Lhs[0])] = lit.Value
+										built[name(v.Lhs[0])] = true
+									}
+								}
+							}
+						}
+						// built from a literal list of k polynomials: degree k-1
+						if len(v.Lhs) >= 1 && len(v.Rhs) == 1 {
+							ast.Inspect(v.Rhs[0], func(w ast.Node) bool {
+								if cl, ok := w.(*ast.CompositeLit); ok {
+									if sl, ok := info.TypeOf(cl).Underlying().(*types.Slice); ok && polyish(sl.Elem()) && len(cl.Elts) > 0 {
+										pinned[name(v.Lhs[0])] = fmt.Sprint(len(cl.Elts) - 1)
+										return false
+									}
+								}
+								return true
+							})
+						}
+					case *ast.IfStmt:
+						// `A.Degree() != k || B.Degree() != k' -> error`: every disjunct that leaves pins its operand
+						var disj func(e ast.Expr)
+						disj = func(e ast.Expr) {
+							be, ok := unparen(e).(*ast.BinaryExpr)
+							if !ok {
+								return
+							}
+							if be.Op == token.LOR {
+								disj(be.X)
+								disj(be.Y)
+								return
+							}
+							if be.Op != token.NEQ {
+								return
+							}
+							if call, ok := unparen(be.X).(*ast.CallExpr); ok {
+								if s, ok := unparen(call.Fun).(*ast.SelectorExpr); ok && s.Sel.Name == "Degree" {
+									if lit, ok := unparen(be.Y).(*ast.BasicLit); ok {
+										pinned[name(s.X)] = lit.Value
+									}
+								}
+							}
+						}
+						if leavesWithError(v.Body) {
+							disj(v.Cond)
+						}
+					case *ast.CallExpr:
+						if s, ok := unparen(v.Fun).(*ast.SelectorExpr); ok && s.Sel.Name == "Resize" && len(v.Args) >= 1 {
+							if lit, ok := unparen(v.Args[0]).(*ast.BasicLit); ok {
+								pinned[strings.TrimSuffix(name(s.X), ".El()")] = lit.Value
+							}
+							// resized to the degree of an element whose degree is pinned
+							if dc, ok := unparen(v.Args[0]).(*ast.CallExpr); ok {
+								if ds, ok := unparen(dc.Fun).(*ast.SelectorExpr); ok && ds.Sel.Name == "Degree" {
+									if k, ok := pinned[name(ds.X)]; ok {
+										pinned[strings.TrimSuffix(name(s.X), ".El()")] = k
+									}
+								}
+							}
+						}
+						if depth < 1 {
+							if hf := calleeFunc(info, v); hf != nil && hf.Pkg() == pk.Types {
+								for _, f2 := range pk.Syntax {
+									for _, d2 := range f2.Decls {
+										hd, ok := d2.(*ast.FuncDecl)
+										if !ok || hd.Body == nil || info.Defs[hd.Name] != types.Object(funcOrigin(hf)) || hd == fd {
+											continue
+										}
+										hs := map[string]string{}
+										ai := 0
+										for _, fl := range hd.Type.Params.List {
+											for _, nm := range fl.Names {
+												if ai < len(v.Args) {
+													hs[nm.Name] = exprString(v.Args[ai])
+												}
+												ai++
+											}
+										}
+										pin(hd.Body, hs, token.NoPos, depth+1)
+									}
+								}
+							}
+						}
+					}
+					return true
+				})
+			}
+			pin(fd.Body, nil, rs.Pos(), 0)
+			if kx, ok := pinned[X]; ok && pinned[Y] == kx {
+				related = "both pinned to degree " + kx + " before the loop"
+			} else if ok && built[X] {
+				// a scratch element the function allocated itself with a constant degree k: the loop is the written-out
+				// accesses Y.Value[0..k], which RESIZEFIRST and INDEG judge like any constant index
+				related = "the ranged element is a scratch of constant degree " + kx + " allocated by the function"
+			}
+		}
+		return related
+	}
+	for _, st := range sites {
+		fkey := core.FuncKey(st.pk, st.fd)
+		if st.api {
+			n++
+			key := fmt.Sprintf("RANGEIDX:%s#range(%s.Value)->%s.Value", fkey, st.X, st.Y)
+			related := judge(st.pk, st.fd, st.rs.Pos(), st.X, st.Y)
+			props := metaProps(fkey)
+			if related != "" {
+				out = append(out, withProps(okOb("RANGEIDX", key, c.Rel(st.rs.Pos()), related, true), props...))
+			} else {
+				out = append(out, withProps(violOb("RANGEIDX", key, c.Rel(st.ypos), fmt.Sprintf("%s indexes %s.Value with the component index of %s.Value at %s without having related their degrees: a %s of higher degree than %s runs past the end of %s.Value (panic), one of lower degree drops components", fkey, st.Y, st.X, c.Rel(st.ypos), st.X, st.Y, st.Y)), props...))
+			}
+			continue
+		}
+		// a helper: the loop is judged at each call from an API method of the package, with the arguments in place of the
+		// helper's parameters (one level; a helper reached only through other helpers relies on what those established)
+		if st.fd.Name.IsExported() {
+			continue // an exported utility on Elements: its doc comment states that the receiver dictates the shape
+		}
+		if related := judge(st.pk, st.fd, st.rs.Pos(), st.X, st.Y); related != "" {
+			continue
+		}
+		pidx := map[string]int{}
+		k := 0
+		for _, fl := range st.fd.Type.Params.List {
+			for _, nm := range fl.Names {
+				pidx[nm.Name] = k
+				k++
+			}
+		}
+		xi, okx := pidx[st.X]
+		yi, oky := pidx[st.Y]
+		if !okx || !oky {
+			continue
+		}
+		hobj := st.pk.TypesInfo.Defs[st.fd.Name]
+		for _, f2 := range st.pk.Syntax {
+			for _, d2 := range f2.Decls {
+				cd, ok := d2.(*ast.FuncDecl)
+				if !ok || cd.Body == nil || cd == st.fd || fileIsTestSupport(c.Program, cd.Pos()) {
+					continue
+				}
+				if !(c.IsFixture && !strings.HasPrefix(cd.Name.Name, "rangeIdxHelper") || (cd.Recv != nil && cd.Name.IsExported() && immutRecv.MatchString(core.RecvTypeName(cd)))) {
+					continue
+				}
+				ckey := core.FuncKey(st.pk, cd)
+				seen := 0
+				ast.Inspect(cd.Body, func(x ast.Node) bool {
+					call, ok := x.(*ast.CallExpr)
+					if !ok || len(call.Args) != k {
+						return true
+					}
+					if hf := calleeFunc(st.pk.TypesInfo, call); hf == nil || types.Object(funcOrigin(hf)) != hobj {
+						return true
+					}
+					X, Y := exprString(unparen(call.Args[xi])), exprString(unparen(call.Args[yi]))
+					if X == Y {
+						return true
+					}
+					n++
+					seen++
+					key := fmt.Sprintf("RANGEIDX:%s#%s(range(%s.Value)->%s.Value)#%d", ckey, st.fd.Name.Name, X, Y, seen)
+					related := judge(st.pk, cd, call.Pos(), X, Y)
+					props := metaProps(ckey)
+					if related != "" {
+						out = append(out, withProps(okOb("RANGEIDX", key, c.Rel(call.Pos()), related+" (loop in the helper "+st.fd.Name.Name+")", true), props...))
+					} else {
+						out = append(out, withProps(violOb("RANGEIDX", key, c.Rel(call.Pos()), fmt.Sprintf("%s hands %s and %s to %s, which indexes %s.Value with the component index of %s.Value at %s, without having related their degrees: a %s of higher degree than %s runs past the end of %s.Value (panic), one of lower degree drops components", ckey, X, Y, st.fd.Name.Name, Y, X, c.Rel(st.ypos), X, Y, Y)), props...))
+					}
+					return true
+				})
+			}
+		}
+	}
 	c.Stats["rangeidx_sites"] = n
 	return out
 }
@@ -1047,7 +1132,7 @@ func init() {
 			for _, o := range core.Floor("RANGEIDX", nil, "cross-element component loops", c.Stats["rangeidx_sites"], 3) {
 				out = append(out, withProps(o, all...))
 			}
-			for _, o := range control(c, "RANGEIDX", scanRangeIdx, "(fixEvaluator).Halves") {
+			for _, o := range control(c, "RANGEIDX", scanRangeIdx, "(fixEvaluator).Halves#", "(fixEvaluator).HalvesVia#rangeIdxHelperHalve") {
 				out = append(out, withProps(o, all...))
 			}
 			return out
@@ -4089,34 +4174,79 @@ func scanVecSingle(c *core.Ctx) []ob {
 		info := pk.TypesInfo
 		fkey := core.FuncKey(pk, fd)
 		type arm struct {
-			blk    ast.Node
-			nilArm bool
+			from, to token.Pos
+			nilArm   bool
 		}
 		var arms []arm
+		// the test itself, or a boolean local holding it (`isVector := pol.Mapping != nil`), possibly negated:
+		// returns (is a mapping test, true when the condition holds for a nil mapping)
+		flags := map[types.Object]bool{} // local -> true when it holds for a nil mapping
+		var mappingTest func(e ast.Expr) (bool, bool)
+		mappingTest = func(e ast.Expr) (bool, bool) {
+			switch v := unparen(e).(type) {
+			case *ast.BinaryExpr:
+				if v.Op != token.NEQ && v.Op != token.EQL {
+					return false, false
+				}
+				var other ast.Expr
+				if isNilIdent(v.Y) {
+					other = v.X
+				} else if isNilIdent(v.X) {
+					other = v.Y
+				} else {
+					return false, false
+				}
+				if !strings.Contains(strings.ToLower(exprString(other)), "mapping") {
+					return false, false
+				}
+				return true, v.Op == token.EQL
+			case *ast.UnaryExpr:
+				if v.Op == token.NOT {
+					ok, n := mappingTest(v.X)
+					return ok, !n
+				}
+			case *ast.Ident:
+				if n, ok := flags[info.Uses[v]]; ok {
+					return true, n
+				}
+			}
+			return false, false
+		}
 		ast.Inspect(fd.Body, func(x ast.Node) bool {
-			is, ok := x.(*ast.IfStmt)
+			as, ok := x.(*ast.AssignStmt)
+			if !ok || as.Tok != token.DEFINE || len(as.Lhs) != len(as.Rhs) {
+				return true
+			}
+			for i, l := range as.Lhs {
+				if id, ok := l.(*ast.Ident); ok {
+					if isT, n := mappingTest(as.Rhs[i]); isT && info.Defs[id] != nil && singleDefOf(info, fd, info.Defs[id]) != nil {
+						flags[info.Defs[id]] = n
+					}
+				}
+			}
+			return true
+		})
+		ast.Inspect(fd.Body, func(x ast.Node) bool {
+			blk, ok := x.(*ast.BlockStmt)
 			if !ok {
 				return true
 			}
-			be, ok := unparen(is.Cond).(*ast.BinaryExpr)
-			if !ok || (be.Op != token.NEQ && be.Op != token.EQL) {
-				return true
-			}
-			var other ast.Expr
-			if isNilIdent(be.Y) {
-				other = be.X
-			} else if isNilIdent(be.X) {
-				other = be.Y
-			} else {
-				return true
-			}
-			if !strings.Contains(strings.ToLower(exprString(other)), "mapping") {
-				return true
-			}
-			thenNil := be.Op == token.EQL
-			arms = append(arms, arm{is.Body, thenNil})
-			if is.Else != nil {
-				arms = append(arms, arm{is.Else, !thenNil})
+			for _, st := range blk.List {
+				is, ok := st.(*ast.IfStmt)
+				if !ok {
+					continue
+				}
+				isT, thenNil := mappingTest(is.Cond)
+				if !isT {
+					continue
+				}
+				arms = append(arms, arm{is.Body.Pos(), is.Body.End(), thenNil})
+				if is.Else != nil {
+					arms = append(arms, arm{is.Else.Pos(), is.Else.End(), !thenNil})
+				} else if terminates(is.Body.List) {
+					// `if isVector { return vec }; return single`: what follows in the block is the other arm
+					arms = append(arms, arm{is.End(), blk.End(), !thenNil})
+				}
 			}
 			return true
 		})
@@ -4125,7 +4255,7 @@ func scanVecSingle(c *core.Ctx) []ob {
 		}
 		inArm := func(p ast.Node, wantNil bool) bool {
 			for _, a := range arms {
-				if a.nilArm == wantNil && p.Pos() >= a.blk.Pos() && p.End() <= a.blk.End() {
+				if a.nilArm == wantNil && p.Pos() >= a.from && p.End() <= a.to {
 					return true
 				}
 			}
@@ -4164,7 +4294,7 @@ func init() {
 		Doc: "in a function that tests `mapping` against nil, GetSingleCoefficient is only called in the arm where the mapping is nil and GetVectorCoefficient in the arm where it is not",
 		Run: func(c *core.Ctx) []ob {
 			out := scanVecSingle(c)
-			out = append(out, control(c, "VECSINGLE", scanVecSingle, "lvfixture.constTerm")...)
+			out = append(out, control(c, "VECSINGLE", scanVecSingle, "lvfixture.constTerm#", "lvfixture.constTermFlag#")...)
 			out = append(out, core.Floor("VECSINGLE", nil, "coefficient accessor calls next to a mapping test", c.Stats["vecsingle_calls"], 4)...)
 			return out
 		}})
